@@ -1006,7 +1006,8 @@ func (s *State) evalForInteger(fe *ast.ForExpression, start *int64, end int64, n
 				return s.Errorf("for loop unexpected control type %s", r.ControlType.String())
 			}
 		default:
-			lastEval = nextEval
+			// The loop's value must not be the live loop register (released and reused after the loop).
+			lastEval = object.CopyRegister(nextEval)
 		}
 	}
 	return lastEval
